@@ -3,6 +3,7 @@
 package main
 
 import (
+	"strings"
 	"os"
 	"syscall"
 
@@ -81,6 +82,7 @@ func VerifC19CopyLoop() {
 	verifrt.OnBlocked(func() {
 		// a copier is blocked reading an idle connection: legitimate only while neither side has ended
 		verifrt.Reach("idle")
+		verifrt.Assert(strings.HasPrefix(verifrt.BlockedReason(), "read on"), "a copier only ever waits for data from its source (never on the error channel or the wait group)")
 		verifrt.Assert(!a.Closed && !b.Closed, "once either side has ended both connections are closed, so no copier stays blocked (the relay returns)")
 	})
 	verifrt.Spawn(func() { _ = copyLoop(a, b) })
